@@ -25,7 +25,7 @@ type DB struct {
 
 // Open opens the database file read-only.
 func Open(path string) (*DB, error) {
-	db, err := sql.Open("sqlite3", "file:"+path+"?mode=ro&_busy_timeout=5000")
+	db, err := sql.Open("sqlite3", "file:"+path+"?_busy_timeout=5000&_query_only=1")
 	if err != nil {
 		return nil, err
 	}
